@@ -1,14 +1,16 @@
 """C12 - instance results are independent of prior history, even after errors."""
 from . import C14 as _C14
 ID = "C12"
-VARIANTS = ["san", "simd"]
+VARIANTS = ["san", "simd", "sanp"]
+ENV = {"sanp": {"LJT_NOPOOL": "1"}}      # sanp: library built with -DLJT_VERIF_POOLS (no pool slop: ASan sees intra-pool overruns)
 HARNESS_FLAGS = _C14.HARNESS_FLAGS
 RULE = ("hist: a seeded history of 1..40 calls on one TJINIT_TRANSFORM instance - tj3Set of every settable parameter with valid and invalid "
         "values, compression, decompression into every pixel format, decompression of streams truncated in the header / inside the saved "
         "ICC marker / in the entropy data, of bit-flipped progressive streams, of lossless streams, transformation with TRIM or PERFECT "
         "(failing for imperfect ones) incl. truncated input, scaling and cropping settings, ICC profile setting, YUV decompression, "
-        "header reads of garbage - followed by a probe (tj3Compress8/12/16 of an image, tj3DecompressHeader + tj3Decompress8 + "
-        "tj3GetICCProfile of a stream with an ICC profile, tj3Transform of a progressive stream) after the non-parameter settings were "
+        "header reads of garbage - compression from RGB / GRAY / CMYK, decompression of an RGB-colourspace JPEG (Adobe marker) - followed by a probe (tj3Compress8/12/16 "
+        "of an image, tj3DecodeYUV8 of fixed planes, tj3Compress8 from CMYK, tj3DecompressHeader + tj3Decompress8 + "
+        "tj3GetICCProfile of a stream with an ICC profile, tj3Transform of a progressive stream and of the ICC stream; each part digested on its own) after the non-parameter settings were "
         "put back; the same probe on a fresh instance given the same values of every settable parameter must produce the same return "
         "codes, error strings and output bytes; all under ASan/UBSan, instances destroyed afterwards.  memtrace -> memreplay (shared "
         "with C14): the library's usage counter over repeated operations on one instance equals the model's")
